@@ -713,6 +713,40 @@ def gen_retry_race_spec(rng: random.Random) -> dict:
             "externals": [{"op": "cancel", "after_quiet": rng.randint(0, 4), "with_gate": rng.choice(["after", "after", "before"])}]}
 
 
+def gen_pipeline_spec(rng: random.Random) -> dict:
+    """a pipeline of 2..4 stages fed by a fan-out of the start step, for chains of stop/resume rounds: whenever a run is
+    stopped (cancel_run / timeout) there is typically one invocation executing behind a gate (or asleep), further events
+    queued for a stage with fewer workers than inputs, and stages downstream that have not seen anything yet -- so a
+    resumed run restarts work, COMPLETES it, hands it downstream, and can be stopped again with other work in flight.
+    Some stages retry at once; the last one may wait for an external event (an idle run at the stop)."""
+    depth = rng.randint(2, 4)
+    tys = [5, 6, 7, 8][:depth]
+    fan = rng.randint(1, 3)
+    start = {"name": "s00", "accepts": [0], "nw": 1, "retry": None,
+             "script": [["send", 5, None, k + 1] for k in range(fan)] + [["ret", "none"]]}
+    steps = [start]
+    for i, t in enumerate(tys):
+        last = i == depth - 1
+        sc: list = []
+        r = rng.random()
+        if r < 0.65:
+            sc.append(["gate"])
+        elif r < 0.85:
+            sc.append(["sleep", rng.choice([1, 2, 3])])
+        pol = None
+        if rng.random() < 0.2:
+            pol = {"kind": rng.choice(["attempts", "legacy"]), "n": 3, "wait": 0}
+            sc.append(["fail_until", rng.randint(1, 2), rng.randint(1, 9)])
+        if last and rng.random() < 0.25:
+            sc.append(["wait", 3, None, None, "per", None, "raise"])
+        if rng.random() < 0.25:
+            sc.append(["gate"])
+        sc.append(["ret", rng.choice(["none", "none", "stop"])] if last else ["ret", str(tys[i + 1])])
+        steps.append({"name": f"s{2 * i + 2:02d}", "accepts": [t], "nw": rng.randint(1, 2), "retry": pol, "script": sc})
+    rng.shuffle(steps)
+    return {"steps": steps, "externals": []}
+
+
 _general = gen_spec
 
 
